@@ -40,7 +40,7 @@ Definition exc_ok (e : pyexc) (x : string * Z * string) : bool :=
   let '(cls', site', name') := x in
   match e with PyExc cls site vals =>
     String.eqb cls cls' && Z.eqb site site' &&
-    match vals with VStr n :: _ => String.eqb n name' | _ => String.eqb name' "" end
+    match vals with VStr n :: _ => String.eqb n name' | _ => true end
   end.
 Definition res_ok {A} (ok : A -> A -> bool) (r : pyres A) (x : A + string * Z * string) : bool :=
   match r, x with
